@@ -89,7 +89,7 @@ fn expected(op: &Op, before: &SysModel, out: &Out<OpRes>) -> (Vec<Ev>, bool) {
                 (vec![], false)
             }
         }
-        Op::Clear(..) => (vec![], true),
+        Op::Clear(..) | Op::RClear(..) => (vec![], true),
         Op::Get(i) => {
             let held = *i < before.w.len() && before.w.blocks[*i as usize].is_some();
             (if held { vec![] } else { vec![Ev::Get(*i)] }, false)
@@ -178,7 +178,7 @@ fn run_leaf(ops: &[Op], prefix: &[Op], with_replica: bool, rep: &Report, stats: 
             let filtered: Vec<Ev> = if drops_ok {
                 // a clear may announce drops inside the cleared range, nothing else
                 let (s, e) = match op {
-                    Op::Clear(s, e) => (*s, *e),
+                    Op::Clear(s, e) | Op::RClear(s, e) => (*s, *e),
                     _ => (0, 0),
                 };
                 if got.iter().all(|ev| matches!(ev, Ev::Have(st, l, true) if *st >= s && st + l <= e)) {
